@@ -46,3 +46,22 @@ Print Assumptions C11_roundtrip_decodes_alike.
 Theorem C11_unparsable_is_fresh : get_cache None = empty_ccache.
 Proof. exact unparsable_is_fresh. Qed.
 Print Assumptions C11_unparsable_is_fresh.
+
+(* the saved file IS the document: Dump writes the file with a call that replaces an existing file (regenerated from the
+   source, Gen/FileWrite.v); written in place instead, a shorter document would be followed by the stale tail of the older one *)
+From VF Require Model.FileStore Proofs.FileStoreProofs Gen.FileWrite.
+Theorem C11_dump_replaces_the_file : forall p how t, In (p, how, t) Gen.FileWrite.dump_write -> t = true.
+Proof.
+  intros p how t Hin. unfold Gen.FileWrite.dump_write in Hin. cbn [In] in Hin.
+  repeat (destruct Hin as [Hin|Hin]; [injection Hin as _ _ <-; reflexivity|]). contradiction.
+Qed.
+Print Assumptions C11_dump_replaces_the_file.
+
+Theorem C11_replacing_write_leaves_the_document : forall old new, FileStore.write_file true old new = new.
+Proof. exact FileStoreProofs.write_truncating. Qed.
+Print Assumptions C11_replacing_write_leaves_the_document.
+
+Theorem C11_in_place_write_keeps_a_stale_tail : forall old new, (length new < length old)%nat ->
+  exists junk, junk <> [] /\ FileStore.write_file false old new = new ++ junk.
+Proof. exact FileStoreProofs.write_in_place_keeps_tail. Qed.
+Print Assumptions C11_in_place_write_keeps_a_stale_tail.
